@@ -6,7 +6,7 @@
 //! as a compile error (`error[E0080]: evaluation of ... CONC failed` / "bug: konst made an invalid
 //! string") of this module rather than as a failed obligation.  Build this module in a run of its
 //! own; a build failure of `c20m` on a tree where `c20` builds IS the detection.
-//! `string::from_iter!` (iterator DSL, C10) is not covered.
+//! `string::from_iter!` rides on the iterator DSL (C10): only a handful of constant instances are here.
 use crate::hlib::*;
 
 harness! {
@@ -49,5 +49,23 @@ harness! {
         let k4 = slice_concat!(u8, PIECES);
         chk!(s, eq_bytes(&k4, &PIECES.concat()), "C20.macro_instance.slice_concat.const_list");
         cov!(s, true, "C20.cover.macro_instances_join_slice_reached");
+    }
+}
+
+harness! {
+    /// kind=bounded tier=quick bound="SMOKE ONLY, not a proof: 5 constant string::from_iter! instances (str and char items, adapters whose arguments are user constants named CAP / Ret / LEN like identifiers the macros use internally) compared with collect::<String>() at run time"
+    #[kani::unwind(24)]
+    fn c20_macro_instances_from_iter(s) {
+        use konst::string;
+        const CAP: usize = 3;
+        const LEN: usize = 2;
+        const ITEMS: &[&str] = &["a", "bc", "", "d", "e"];
+        const CHARS: &[char] = &['x', 'é', '€'];
+        chk!(s, eq_bytes(string::from_iter!(ITEMS).as_bytes(), ITEMS.iter().copied().collect::<String>().as_bytes()), "C20.macro_instance.from_iter.strs");
+        chk!(s, eq_bytes(string::from_iter!(CHARS, copied()).as_bytes(), CHARS.iter().copied().collect::<String>().as_bytes()), "C20.macro_instance.from_iter.chars");
+        chk!(s, eq_bytes(string::from_iter!(ITEMS, take(CAP)).as_bytes(), ITEMS.iter().copied().take(CAP).collect::<String>().as_bytes()), "C20.macro_instance.from_iter.take_user_const_named_cap");
+        chk!(s, eq_bytes(string::from_iter!(ITEMS, filter(|x| x.len() < LEN)).as_bytes(), ITEMS.iter().copied().filter(|x| x.len() < LEN).collect::<String>().as_bytes()), "C20.macro_instance.from_iter.filter_user_const_named_len");
+        chk!(s, eq_bytes(string::from_iter!(ITEMS, skip(CAP)).as_bytes(), ITEMS.iter().copied().skip(CAP).collect::<String>().as_bytes()), "C20.macro_instance.from_iter.skip_user_const_named_cap");
+        cov!(s, true, "C20.cover.macro_instances_from_iter_reached");
     }
 }
